@@ -119,6 +119,14 @@ def run_translator(repo):
     return data, key, False
 
 
+def table_json_path(repo):
+    """Where generate(repo) leaves the full table (per repo path, so that checks of different trees do not mix)."""
+    repo = os.path.abspath(repo)
+    if repo == '/repo':
+        return os.path.join(CACHE, 'accesses.json')
+    return os.path.join(CACHE, 'accesses-%s.json' % hashlib.sha256(repo.encode()).hexdigest()[:10])
+
+
 def _coq_string(s):
     return '"' + s.replace('"', '""') + '"'
 
@@ -177,7 +185,7 @@ def generate(repo):
     # full table for the dynamic driver and for replay files
     full = {'digest': key, 'kinds': KINDS, 'roots': data['roots'], 'notes': data.get('notes', []),
             'accesses': data['accesses']}
-    _atomic_write(os.path.join(CACHE, 'accesses.json'), json.dumps(full))
+    _atomic_write(table_json_path(repo), json.dumps(full))
     return text, '%d entries (%d sites) digest %s%s' % (len(groups), len(data['accesses']), key, ' cached' if hit else '')
 
 
